@@ -225,6 +225,22 @@ def check_instance(n, k, iseed, nbox, ndir):
               recorded=oc.h2f(hv))
             break
 
+    # ---- the value does not depend on the TYPE of the coordinates ------------------------------------------------
+    # box points with integer coordinates (centre, corners, face / edge centres) given as a list of Python ints, a tuple, an integer
+    # ndarray: the same point, so the same value as with doubles (inside a ball the cubic branch does the arithmetic)
+    from iOpt.trial import Point, FunctionValue
+    import itertools
+    lat = list(itertools.product((-1, 0, 1), repeat=n))
+    r.shuffle(lat)
+    for q in lat[:30]:
+        ref = oc.f2h(ev([float(t) for t in q]))
+        for tname, arg in (("list of int", list(q)), ("tuple of int", tuple(q)), ("int64 ndarray", oc.np.array(q, dtype=oc.np.int64))):
+            got, e = oc.guarded(lambda: float(p.Calculate(Point(arg, []), FunctionValue()).value))
+            if e is not None or oc.f2h(got) != ref:
+                v("argument_type", point=list(q), given_as=tname, value=got if e is None else e, value_for_doubles=oc.h2f(ref))
+                break
+    info["integer_typed_points"] = min(30, len(lat))
+
     # ---- reproducibility --------------------------------------------------------------------------------------
     before = [oc.f2h(ev(x)) for x in kept]
     others = []
